@@ -3,7 +3,7 @@
 (* Build, construct, evaluate: AyBuild followed by AyEval, plus the Config  *)
 (* life cycle of C11 (evaluate the kept source again, mutate a result).     *)
 (***************************************************************************)
-EXTENDS AyBuild, AyEval, Props_Eval, Props_EvalUni, Props_C07
+EXTENDS AyBuild, AyEval, Props_EvalUni, Props_C07
 
 CONSTANT MaxEvals      \* how many times the kept source is evaluated (C11)
 
